@@ -91,6 +91,7 @@ def gen_prune_file(rng):
     leaves = P.schema_leaves(elems)
     ng = rng.randrange(2, 7)
     groups = []
+    nan_file = rng.choice([None, None, 'ignored', 'greatest', 'smallest']); nan_chunks = [0]
     for g in range(ng):
         n = rng.choice([1, 2, 5, 20, 60])
         cols = []
@@ -121,6 +122,20 @@ def gen_prune_file(rng):
                 else:
                     vals.append(bytes(rng.choice(b'ab\x00\xff' + bytes([97 + g % 20])) for _ in range(lf.type_length)))
             mm = typed_minmax(lf.ptype, vals)
+            # chunks holding NaNs: the statistics are true bounds under one of the three conventions writers use
+            # (NaNs left out of min/max; NaN sorted last -> max = NaN, which carquet's own builder emits; NaN sorted first -> min = NaN)
+            if lf.ptype in (P.FLOAT, P.DOUBLE) and nn and nan_file and rng.random() < 0.6:
+                fmt = FMT[lf.ptype]; nanb = struct.pack(fmt, float('nan'))
+                for q in rng.sample(range(nn), max(1, nn // 4)):
+                    vals[q] = nanb
+                real = [v for v in vals if v != nanb]
+                mmr = typed_minmax(lf.ptype, real)
+                conv = nan_file
+                if mmr is None:
+                    mm = None if conv == 'ignored' else (nanb, nanb)
+                else:
+                    mm = mmr if conv == 'ignored' else (mmr[0], nanb) if conv == 'greatest' else (nanb, mmr[1])
+                nan_chunks[0] += 1
             cs = {'pages': [{'defs': defs, 'reps': [0] * n, 'values': vals, 'encoding': 'PLAIN'}], 'dictionary': None}
             if mm is not None and rng.random() < 0.85 and not (lf.ptype == P.BYTE_ARRAY and (len(mm[0]) == 0 or len(mm[1]) == 0)):
                 cs['stats'] = (mm[0], mm[1], n - nn)
@@ -130,7 +145,7 @@ def gen_prune_file(rng):
         groups.append({'num_rows': n, 'columns': cols})
     opt = P.WriteOptions(codec=rng.choice([0, 1]), stats=rng.choice(['new', 'deprecated', 'both', 'new', 'none']), rng=rng, unknown_fields=rng.random() < 0.2)
     data, leaves, model, info = P.write_file(elems, groups, opt)
-    return data, leaves, model, opt.stats
+    return data, leaves, model, opt.stats + (':nan-' + nan_file if nan_chunks[0] and opt.stats != 'none' else '')
 
 
 def main(c):
@@ -174,7 +189,9 @@ def main(c):
             data, leaves, model, smode = gen_prune_file(rng)
             pq = os.path.join(d, 'p%d.parquet' % i); td = os.path.join(d, 'p%d.tdmp' % i)
             open(pq, 'wb').write(data); P.tdmp_write(td, leaves, model)
-            c.count('prune_files_stats_' + smode)
+            c.count('prune_files_stats_' + smode.split(':')[0])
+            if ':' in smode:
+                c.count('prune_files_with_nan_chunks_bounds_' + smode.split(':nan-')[1])
             cur += [pq, td]
             if len(cur) >= 2 + 2 * 6:
                 shards.append(cur); cur = ['prune', c.seed]
@@ -190,7 +207,7 @@ def main(c):
               'must say might-match for every group with a matching row or without statistics, filter_row_groups must equal the capped ascending list. distinct = probe/value-set hashes')
     c.assumptions = ['pruning data are NaN-free (the property leaves NaN semantics of predicates open)', 'INT96 and BOOLEAN are outside the reader-API part of the property']
     for k in ('pages_with_statistics', 'pages_with_nan_values', 'builder_stats_with_min_max', 'builder_values_over_256_bytes', 'compare_helper_calls', 'range_helper_calls', 'page_might_match_calls',
-              'predicate_evaluations', 'groups_pruned', 'groups_without_min_max_probed', 'filter_calls', 'prune_files_stats_deprecated', 'prune_files_stats_both', 'prune_files_stats_none'):
+              'predicate_evaluations', 'groups_pruned', 'groups_without_min_max_probed', 'filter_calls', 'prune_files_stats_deprecated', 'prune_files_stats_both', 'prune_files_stats_none', 'prune_files_with_nan_chunks_bounds_ignored', 'prune_files_with_nan_chunks_bounds_greatest', 'prune_files_with_nan_chunks_bounds_smallest'):
         c.require(k)
 
 
